@@ -1,5 +1,6 @@
 """Run one harness configuration: explore all feasible paths of the real code, collect and discharge obligations."""
 import os
+import fractions
 import time
 import traceback
 import z3
@@ -108,6 +109,35 @@ def run_job(job):
         res['cc_inputs'] = sample_inputs(store, job.get('crosscheck', 0), job.get('seed', 0)) if job.get('crosscheck') else []
         if can != 'sat' and res['cc_inputs']:
             can = 'sat'            # an input sampled from a (satisfiable) path condition exists: the harness is not vacuous
+        if can != 'sat' and store.final_pcs and not job.get('helper'):
+            # the solver cannot decide the path conditions in its budget: look for an input on which the harness runs to its end in the
+            # interpreter's concrete mode (every `assume` holds) - such an input witnesses that the preconditions are satisfiable
+            rnd = random.Random(4242)
+
+            def draw(v):
+                if isinstance(v, (list, tuple)):
+                    return [draw(x) for x in v]
+                if isinstance(v, dict):
+                    return {k: draw(x) for k, x in v.items()}
+                if sym.is_sym(v):
+                    if z3.is_bool(v):
+                        return rnd.random() < 0.5
+                    if z3.is_int(v):
+                        return rnd.randint(0, 4)
+                    return str(fractions.Fraction(rnd.randint(1, 24), 8))
+                return v
+            for _ in range(6):
+                cand = {k: draw(v) for k, v in store.inputs.items()}
+                try:
+                    c = run_concrete(job, cand)
+                except Exception:
+                    break
+                if c.get('status') == 'ok' and c.get('ensures'):
+                    can = 'sat'
+                    if job.get('crosscheck'):
+                        res['cc_inputs'] = [cand]           # also used for the CPython cross-check of this configuration
+                    break
+            Store.current = store
         res['canary'] = can
         # every obligation gets the full solver portfolio until the discharge budget of the configuration is used up; what is left
         # after that is reported undecided (never a verdict)
